@@ -421,3 +421,39 @@ m('C09','global-token-any-scope','webserver/util.go',
 m('C09','root-match-any-token',S,
   '\t\treturn token.IncludeSubgroups && token.Group == ""','\t\treturn token.IncludeSubgroups',
   'R9.5','Stateful.match','any hierarchical token matches the root scope')
+# ---------------- C19 ----------------
+WS='webserver/webserver.go'
+DW='diskwriter/diskwriter.go'
+m('C19','description-path-unclean',D,
+  '\t\tfileName := filepath.Join(\n\t\t\tDirectory, path.Clean("/"+name)+".json",\n\t\t)','\t\tfileName := filepath.Join(\n\t\t\tDirectory, name+".json",\n\t\t)',
+  'R19.1','through a function value','group name joined to the directory without cleaning',quick=True)
+m('C19','update-path-unclean',D,
+  '\t\tfilename = filepath.Join(\n\t\t\tDirectory, path.Clean("/"+name)+".json",\n\t\t)','\t\tfilename = filepath.Join(\n\t\t\tDirectory, name+".json",\n\t\t)',
+  'R19.1','os.Rename arg 1 in group.rewriteDescriptionFile','new group file written outside the groups directory')
+m('C19','group-name-unvalidated',G,
+  '\tif !validGroupName(name) {\n\t\treturn nil, nil, UserError("illegal group name")\n\t}\n\n\tgroups.mu.Lock()','\tgroups.mu.Lock()',
+  'R19.2','Group.name stored only when valid','groups created under arbitrary names')
+m('C19','valid-allows-backslash',G,
+  "\tif strings.ContainsRune(name, '\\\\') {\n\t\treturn false\n\t}\n",'',
+  'R19.2','validGroupName rejects backslash','backslash accepted in group names')
+m('C19','valid-no-fixpoint',G,
+  '\treturn s == "/"+name\n}','\treturn s != ""\n}',
+  'R19.2','validGroupName requires a clean rooted path',"'..' components accepted")
+m('C19','parsegroup-no-clean',WS,
+  '\tname = path.Clean("/" + name)\n\treturn name[1:]','\tname = "/" + name\n\treturn name[1:]',
+  'R19.2','URL-to-group parsing','URL text reaches the group layer uncleaned')
+m('C19','username-unvalidated',G,
+  '\treturn username == "" || validGroupName(username)','\treturn username == "" || len(username) < 256',
+  'R19.2','usernames obey the group-name rule','usernames with .. accepted')
+m('C19','delete-allows-slash',WS,
+  "\t\tif strings.ContainsRune(filename, '/') ||\n\t\t\tstrings.ContainsRune(filename, filepath.Separator) {","\t\tif strings.ContainsRune(filename, filepath.Separator) && len(filename) > 255 {",
+  'R19.3','recordings delete refuses names with a separator','recordings of other groups deletable')
+m('C19','recording-raw-username',DW,
+  '\t\tfilename = filename + "-" + sanitise(username)','\t\tfilename = filename + "-" + username',
+  'R19.3','recording names use the sanitised username','username with slashes chooses the recording directory')
+m('C19','recording-dir-from-message',DW,
+  '\tdirectory := filepath.Join(Directory, g.Name())','\tdirectory := filepath.Join(Directory, g.Description().DisplayName)',
+  'R19.1','in diskwriter.New','recording directory named after a client-editable field')
+m('C19','sanitise-forward-only',DW,
+  '\t"\\\\", "-backslash-",\n','',
+  'R19.3',"sanitise replaces",'backslash survives in recording names')
